@@ -2,7 +2,7 @@
    google.golang.org/protobuf (impl.marshal: fields in marshal order, zero values of
    implicit-presence fields omitted, minimal varints) and its decoder (impl.unmarshal:
    any field order, duplicates, non-minimal varints, unknown fields, uint32 truncation).
-   Definitions only; the theorems are in Lib/C14_ProtoWireFacts.v.
+   Definitions only; the theorems are in Lib/C14_ProtoWireFacts.v and Lib/C14_ProtoWireNF.v.
 
    INTERFACE
    ---------------------------------------------------------------------------
@@ -25,7 +25,8 @@
                                                  singular fields at most once, LImp fields non-zero, one member per oneof,
                                                  uint32 < 2^32, uint64 < 2^64, bytes < 256
      schema_ok : schema -> bool
-   Theorems (C14_ProtoWireFacts): decode_encode, encode_inj, decode_reencode_canonical, parse_encode, encode_wf_bytes.
+   Theorems: C14_ProtoWireFacts: decode_encode (round trip), encode_inj, parse_encode (wire-level round trip);
+             C14_ProtoWireNF: decode_wf (the decoder returns normal forms), decode_idempotent, decode_reencode_iff.
    LIMITS: unknown fields are dropped by [decode] (Go retains them in the message and re-emits them);
            group wire types (3/4) are a decode error here (Go skips a well-formed unknown group);
            Go's recursion limit (10000) is not modelled.
